@@ -165,8 +165,21 @@ def one_part(run, name, env, stats, keep_sample=False):
             "oblig": oblig, "fails": fails}
 
 
+RIM = re.compile(r'"rim":\[([^\]]*)\]')
+# every inequality of the named envelopes (FieldCodec!Rims) must be probed on its inner boundary
+EXPECTED_RIMS = [
+    "bds40:MCP<=45000ft", "bds40:FMS<=45000ft", "bds40:MCP_100ft_grid", "bds40:FMS_100ft_grid",
+    "bds50:|roll|<=50deg", "bds50:GS<=600kt", "bds50:TAS>=80kt", "bds50:TAS<=500kt",
+    "bds50:|GS-TAS|<=200kt", "bds50:roll*rate>=0",
+    "bds60:IAS>0", "bds60:IAS<=500kt", "bds60:Mach>0", "bds60:Mach<=1",
+    "bds60:not(IAS>250&Mach<0.4)", "bds60:not(IAS<150&Mach>0.5)",
+    "bds60:|baro_rate|<=6000fpm", "bds60:|inertial_rate|<=6000fpm",
+    "bds62:selalt_100ft_grid", "alt12:>0ft", "alt13:>0ft",
+]
+
+
 def summarise_fields(part, stats):
-    """Per-sweep counts (vectors, obligations) read back from the vector file."""
+    """Per-sweep counts (vectors, obligations, envelope rims) read back from the vector file."""
     with open(part["vec"]) as f:
         for line in f:
             m = re.search(r'"s":"([^"]+)"', line)
@@ -174,11 +187,15 @@ def summarise_fields(part, stats):
             s = m.group(1) if m else "?"
             stats["vectors_per_sweep"][s] += 1
             stats["obligations_per_sweep"][s] += int(k.group(1)) if k else 0
+            r = RIM.search(line)
+            if r and r.group(1):
+                for name in r.group(1).split(","):
+                    stats["rim_vectors"][name.strip().strip('"')] += 1
 
 
 def check(run):
     stats = {"rejected_by_field": Counter(), "vectors_per_sweep": Counter(),
-             "obligations_per_sweep": Counter()}
+             "obligations_per_sweep": Counter(), "rim_vectors": Counter()}
     core.build_rs("c03")
 
     # M: the independent encoder is internally consistent (tool error if not)
@@ -250,8 +267,15 @@ def check(run):
         raise core.ToolError("DF20/BDS 0,5 labelling: one of the two outcomes was never produced "
                              f"(labelled={labelled}, unlabelled={unlabelled})")
 
+    missing = [r for r in EXPECTED_RIMS if stats["rim_vectors"][r] == 0]
+    if missing:
+        raise core.ToolError(f"no generated vector on the inner boundary of: {missing}")
+
     run.cov.update({
         "exhaustive": True,
+        # vectors (obligations active) lying exactly on the inner boundary of each inequality of
+        # the named envelopes, counted over all generated vectors of this run
+        "rim_vectors_per_envelope_inequality": dict(stats["rim_vectors"]),
         "evaluations": evaluations,
         "distinct_nontrivial": len(distinct),
         "obligations_checked": obligations,
@@ -276,7 +300,10 @@ def check(run):
                 "each BDS 5,0 / 6,0 field with the cross-checked partner field absent and present, "
                 "walking-bit and seeded addresses through nine formats, DF20 payloads laid out as "
                 "BDS 0,5 with equal / adjacent / unrelated / Gillham-equal / absent header altitude for each "
-                "of the 13 type codes); the other fields of each frame are "
+                "of the 13 type codes; envelope-rim sweeps: every code pair with |GS-TAS| = 200 and 198 kt, "
+                "every rate with roll 0 and every in-envelope roll with rate 0, every IAS/Mach pair on the "
+                "inner boundary of the two cross-checks, the last and last-but-one accepted code of each "
+                "one-field bound of BDS 4,0/5,0/6,0, two seeded fills each); the other fields of each frame are "
                 "seeded; thorough adds three more fill variants and the full 2046 x 2046 cross product "
                 "of the velocity axes.  distinct_nontrivial counts distinct generated vectors "
                 "(class + codes); a vector is non-trivial because it is a complete sealed frame "
